@@ -500,8 +500,9 @@ def tight(ctx, exe, drv, variant, stats, thorough):
             script.append("tight %s %d %d" % (key, e, off))
             expect.append((key, e, off, "clean"))
         if e > 0:
-            script.append("tight %s %d %d" % (key, e - 1, 0))
-            expect.append((key, e - 1, 0, "asan:heap-buffer-overflow"))
+            # (offset 64 keeps the base 64-aligned and makes a 0-byte region a real, non-empty block)
+            script.append("tight %s %d %d" % (key, e - 1, 64))
+            expect.append((key, e - 1, 64, "asan"))
     rc, out, err = C.run_lines(exe, "\n".join(script) + "\n", timeout=900)
     got = [l for l in out if l.startswith("tight ")]
     if rc != 0 or len(got) != len(expect):
@@ -509,6 +510,8 @@ def tight(ctx, exe, drv, variant, stats, thorough):
         return
     for ln, (key, size, off, want) in zip(got, expect):
         verdict = ln.split("-> ")[1].strip()
+        if want == "asan" and verdict.startswith("asan:"):
+            verdict = "asan"  # any ASan report (a partially out-of-bounds 32-byte access is classed `unknown-crash`)
         stats["tight"][want + ("" if verdict == want else "!")] = stats["tight"].get(want + ("" if verdict == want else "!"), 0) + 1
         stats["evaluations"] += 1
         if verdict == want:
